@@ -30,7 +30,16 @@ type ByName []HashPair
 
 func (a ByName) Len() int           { return len(a) }
 func (a ByName) Swap(i, j int)      { a[i], a[j] = a[j], a[i] }
-func (a ByName) Less(i, j int) bool { return a[i].Key.Inspect() < a[j].Key.Inspect() }
+func (a ByName) Less(i, j int) bool {
+	x, y := a[i].Key.Inspect(), a[j].Key.Inspect()
+	if x != y {
+		return x < y
+	}
+
+	// Distinct keys can have the same name, for example 1 and "1", so
+	// fall back to the type to ensure we always have the same order.
+	return a[i].Key.Type() < a[j].Key.Type()
+}
 
 // Hash wrap map[HashKey]HashPair and implements Object interface.
 type Hash struct {
